@@ -465,7 +465,7 @@ func (v *Vue) callFunc(ctx *VueContext, fn any, args ...any) (any, error) {
 func callRecovering(fn reflect.Value, in []reflect.Value) (out []reflect.Value, err error) {
 	defer func() {
 		if r := recover(); r != nil {
-			err = fmt.Errorf("panic: %v", r)
+			err = fmt.Errorf("panic: %s", helpers.Sprint(r))
 		}
 	}()
 	return fn.Call(in), nil
@@ -526,7 +526,7 @@ func fileFunc(v *Vue) func(*VueContext, string) (any, error) {
 		// Resolve filename through the context's stack if it's a variable reference
 		if ctx != nil {
 			if val, ok := ctx.Stack().Resolve(filename); ok {
-				filename = fmt.Sprint(val)
+				filename = helpers.Sprint(val)
 			}
 		}
 
@@ -546,7 +546,7 @@ func jsonFileFunc(v *Vue) func(*VueContext, string) (any, error) {
 		// Resolve filename through the context's stack if it's a variable reference
 		if ctx != nil {
 			if val, ok := ctx.Stack().Resolve(filename); ok {
-				filename = fmt.Sprint(val)
+				filename = helpers.Sprint(val)
 			}
 		}
 
@@ -571,7 +571,7 @@ func yamlFileFunc(v *Vue) func(*VueContext, string) (any, error) {
 		// Resolve filename through the context's stack if it's a variable reference
 		if ctx != nil {
 			if val, ok := ctx.Stack().Resolve(filename); ok {
-				filename = fmt.Sprint(val)
+				filename = helpers.Sprint(val)
 			}
 		}
 
@@ -678,7 +678,7 @@ func escapeFunc(v any) any {
 	if s, ok := v.(string); ok {
 		return html.EscapeString(s)
 	}
-	return fmt.Sprint(v)
+	return helpers.Sprint(v)
 }
 
 func intFunc(v any) any {
@@ -698,7 +698,7 @@ func intFunc(v any) any {
 }
 
 func stringFunc(v any) any {
-	return fmt.Sprint(v)
+	return helpers.Sprint(v)
 }
 
 func jsonFunc(v any) (string, error) {
